@@ -189,6 +189,17 @@ class Builder:
                     else:
                         res = f(list(args))
                     res = _flat(res)
+                elif op == 'lmadd':     # ChannelList(xs).madd(m, d)
+                    res = ugn.ChannelList(args[:-2]).madd(args[-2], args[-1])
+                elif op == 'zmadd':     # MulAdd.new(xs, ms, ds): lists zipped channel by channel
+                    k = ins['nout']
+                    res = ugn.MulAdd.new(list(args[:k]), list(args[k:2 * k]), list(args[2 * k:]))
+                elif op == 'lbin':      # ChannelList(xs) sel y   |   ChannelList(xs) sel ChannelList(ys)
+                    k = ins['nout']
+                    other = args[k] if len(args) == k + 1 else ugn.ChannelList(args[k:])
+                    res = self.bin[ins['sel']](ugn.ChannelList(args[:k]), other)
+                elif op == 'lun':
+                    res = -ugn.ChannelList(args)
                 elif op == 'sinkn':     # output unit whose channel array is given as nested lists
                     cls = self.ugens.installed_ugens[ins['cls']]
                     f = _ctor(cls, ins['rate'])
